@@ -39,9 +39,9 @@ const HEALTH_TIMEOUT: Duration = Duration::from_secs(5); // the fleets' DEFAULT_
 /// verdict is settled, and a defect that makes every case slow must not make the run endless.
 static CONFIRMED: AtomicU64 = AtomicU64::new(0);
 const ENOUGH_CONFIRMED: u64 = 12;
-/// A single call that takes longer than this is far beyond what any generated script can cost
-/// (at most 3 silent attempts of 120 ms, or two default delays of 1 s).
-const SLOW_CALL: Duration = Duration::from_secs(3);
+/// A single call that takes longer than this (plus the retry delays it is entitled to) is far beyond
+/// what any generated script can cost (at most 3 silent attempts of 120 ms and stalled fragments).
+const SLOW_CALL: Duration = Duration::from_millis(1500);
 const IDLE_WATCHDOG: Duration = Duration::from_secs(2);
 /// Watchdog expiries so far. When the implementation's socket behaviour systematically differs from
 /// what the scripts engineer (e.g. a client that no longer closes its socket after EOF), every case
@@ -74,23 +74,27 @@ struct Pv {
     mf: u8, // which malformed reply the node sends
     op: u8, // constructor: 0 `with_options`, 1 `new` (default options: 3 attempts, 1 s delay; only with max 3)
     ob: u8, // observer threads sweeping the read-only entry points while the case runs (0–3)
+    fr: u8, // how the node's replies arrive: 0 whole, 1 byte by byte, 2 in 2–3 pieces, 3 the same with stalls, 4 cut at 48 and after the query
+    ls: u8, // 1: an attempt the node was silent on is answered after all, once the timeout has passed
+    rs: u8, // size of the success reply's body: 0 small, 1..6 = 4095, 4096, 4097, 65535, 65537, 1 MiB
+    rt: u8, // async cases: 1 = a runtime of its own with one worker thread and one blocking thread
 }
 
-const PV_RANGES: [u8; 12] = [6, 6, 4, 5, 3, 4, 3, 3, 3, 3, 2, 4];
+const PV_RANGES: [u8; 16] = [6, 6, 4, 5, 3, 4, 3, 3, 3, 3, 2, 4, 5, 2, 7, 2];
 
 impl Pv {
-    fn fields(&self) -> [u8; 12] {
-        [self.nm, self.tg, self.me, self.pa, self.to, self.dl, self.dt, self.by, self.cl, self.mf, self.op, self.ob]
+    fn fields(&self) -> [u8; 16] {
+        [self.nm, self.tg, self.me, self.pa, self.to, self.dl, self.dt, self.by, self.cl, self.mf, self.op, self.ob, self.fr, self.ls, self.rs, self.rt]
     }
-    fn from_fields(f: [u8; 12]) -> Pv {
-        Pv { nm: f[0], tg: f[1], me: f[2], pa: f[3], to: f[4], dl: f[5], dt: f[6], by: f[7], cl: f[8], mf: f[9], op: f[10], ob: f[11] }
+    fn from_fields(f: [u8; 16]) -> Pv {
+        Pv { nm: f[0], tg: f[1], me: f[2], pa: f[3], to: f[4], dl: f[5], dt: f[6], by: f[7], cl: f[8], mf: f[9], op: f[10], ob: f[11], fr: f[12], ls: f[13], rs: f[14], rt: f[15] }
     }
     fn parse(w: &str) -> Option<Pv> {
         let v: Vec<u8> = w.strip_prefix("p=")?.split('.').map(|x| x.parse::<u8>().ok()).collect::<Option<Vec<u8>>>()?;
-        if !(10..=12).contains(&v.len()) || v.iter().zip(PV_RANGES).any(|(x, r)| *x >= r) {
+        if !(10..=16).contains(&v.len()) || v.iter().zip(PV_RANGES).any(|(x, r)| *x >= r) {
             return None;
         }
-        let mut f = [0u8; 12];
+        let mut f = [0u8; 16];
         f[..v.len()].copy_from_slice(&v);
         Some(Pv::from_fields(f))
     }
@@ -99,11 +103,15 @@ impl Pv {
     }
     /// Each field: the ordinary value half of the time, otherwise any of its values.
     fn random(rng: &mut Rng) -> Pv {
-        let mut f = [0u8; 12];
-        for (x, r) in f.iter_mut().zip(PV_RANGES).take(10) {
-            if rng.chance(1, 2) {
+        let mut f = [0u8; 16];
+        for (i, (x, r)) in f.iter_mut().zip(PV_RANGES).enumerate() {
+            if (i < 10 || i >= 12) && rng.chance(1, 2) {
                 *x = rng.below(r as u64) as u8;
             }
+        }
+        // the 1 MiB reply in one case in sixteen of those that vary the size
+        if f[14] == 6 && !rng.chance(1, 16) {
+            f[14] = 5;
         }
         // observers in one case in eight (they cost CPU that the timing of the other cases needs)
         if rng.chance(1, 8) {
@@ -625,6 +633,11 @@ struct NodeShared {
     /// which malformed reply the node sends (0: 48 bytes 0xEE; 1: a sound frame but for the magic; 2: a
     /// header whose lengths contradict each other)
     malformed_kind: AtomicU64,
+    /// how replies are written (see `Pv::fr`), whether a silent attempt is answered late and after how
+    /// many ms (0 = never), and the size the success reply's body is padded to (0 = not padded)
+    frag: AtomicU64,
+    late_ms: AtomicU64,
+    pad_to: AtomicU64,
     _placeholder: OwnedFd,
     st: Mutex<NodeSt>,
     cv: Condvar,
@@ -725,6 +738,52 @@ fn reply_frame(req: &RawFrame, ec: u32, body_format: u16, body: &[u8]) -> Vec<u8
 fn reply_payload(node: u64, k: usize) -> String {
     format!("{{\"r\":[{node},{k}]}}")
 }
+/// The same, padded with a string member to exactly `size` bytes (if that is larger).
+fn reply_payload_sized(node: u64, k: usize, size: usize) -> String {
+    let base = format!("{{\"r\":[{node},{k}],\"pad\":\"\"}}");
+    if size <= base.len() {
+        return reply_payload(node, k);
+    }
+    format!("{{\"r\":[{node},{k}],\"pad\":\"{}\"}}", "p".repeat(size - base.len()))
+}
+
+/// Write a frame the way the case asks for: whole, byte by byte (the first 160 bytes; the rest whole),
+/// in 2–3 pieces cut at places drawn from `seed` (inside the header, at 48, inside the query, inside the
+/// body), the same with a stall of 3 ms between the pieces, or cut at 48 and after the query.
+fn write_frame(s: &mut TcpStream, frame: &[u8], how: u64, seed: u64, query_len: usize) -> std::io::Result<()> {
+    let n = frame.len();
+    let mut cuts: Vec<usize> = match how {
+        0 => vec![],
+        1 => (1..n.min(160)).collect(),
+        2 | 3 => {
+            let mut r = Rng::new(seed | 1);
+            let mut c = vec![];
+            for _ in 0..(1 + r.below(2)) {
+                let at = match r.below(4) {
+                    0 => 1 + r.below(47) as usize,
+                    1 => 48,
+                    2 => 48 + r.below(query_len.max(1) as u64) as usize,
+                    _ => 48 + query_len + r.below((n - 48 - query_len).max(1) as u64) as usize,
+                };
+                c.push(at);
+            }
+            c
+        }
+        _ => vec![48, 48 + query_len],
+    };
+    cuts.retain(|c| *c > 0 && *c < n);
+    cuts.sort();
+    cuts.dedup();
+    let mut from = 0;
+    for c in cuts.into_iter().chain(std::iter::once(n)) {
+        s.write_all(&frame[from..c])?;
+        from = c;
+        if how == 3 && from < n {
+            std::thread::sleep(Duration::from_millis(3));
+        }
+    }
+    Ok(())
+}
 fn reply_detail(node: u64, k: usize) -> String {
     format!("[{node},{k}]")
 }
@@ -791,13 +850,16 @@ fn handle_conn(sh: Arc<NodeShared>, mut s: TcpStream, id: u64) {
             b
         };
         let mut close = false;
+        let how = sh.frag.load(Ordering::SeqCst);
+        let seed = fnv(format!("{}.{log_index}", sh.id).as_bytes());
         match beh {
             Beh::Success => {
-                let _ = s.write_all(&reply_frame(&req, 0, 2, reply_payload(sh.id, log_index).as_bytes()));
+                let body = reply_payload_sized(sh.id, log_index, sh.pad_to.load(Ordering::SeqCst) as usize);
+                let _ = write_frame(&mut s, &reply_frame(&req, 0, 2, body.as_bytes()), how, seed, req.query.len());
             }
             Beh::AppErr => {
                 let code = sh.app_code.load(Ordering::SeqCst) as u32;
-                let _ = s.write_all(&reply_frame(&req, code, 3, app_error_text(sh.id, log_index).as_bytes()));
+                let _ = write_frame(&mut s, &reply_frame(&req, code, 3, app_error_text(sh.id, log_index).as_bytes()), how, seed, req.query.len());
             }
             Beh::Malformed => {
                 let _ = match sh.malformed_kind.load(Ordering::SeqCst) {
@@ -814,10 +876,24 @@ fn handle_conn(sh: Arc<NodeShared>, mut s: TcpStream, id: u64) {
                     }
                 };
             }
-            Beh::Silent => hung = true,
+            Beh::Silent => {
+                let late = sh.late_ms.load(Ordering::SeqCst);
+                if late > 0 && !hung {
+                    // the answer comes after all — once the caller's timeout has passed. Whoever still
+                    // listens on this connection then reads a reply to a request it has given up.
+                    if let Ok(mut w) = s.try_clone() {
+                        let frame = reply_frame(&req, 0, 2, reply_payload(sh.id, log_index).as_bytes());
+                        let _ = std::thread::Builder::new().stack_size(64 << 10).spawn(move || {
+                            std::thread::sleep(Duration::from_millis(late));
+                            let _ = w.write_all(&frame);
+                        });
+                    }
+                }
+                hung = true;
+            }
             Beh::Atc | Beh::Refused => close = true,
             Beh::Idle => {
-                let _ = s.write_all(&reply_frame(&req, 0, 2, reply_payload(sh.id, log_index).as_bytes()));
+                let _ = write_frame(&mut s, &reply_frame(&req, 0, 2, reply_payload(sh.id, log_index).as_bytes()), how, seed, req.query.len());
                 let _ = s.shutdown(Shutdown::Write);
                 // the client's reader sees EOF, fails its pending map and shuts its socket down: FIN
                 let mut b = [0u8; 64];
@@ -914,6 +990,9 @@ impl Node {
             id,
             app_code: AtomicU64::new(4096),
             malformed_kind: AtomicU64::new(0),
+            frag: AtomicU64::new(0),
+            late_ms: AtomicU64::new(0),
+            pad_to: AtomicU64::new(0),
             _placeholder: ph,
             st: Mutex::new(NodeSt {
                 script,
@@ -963,6 +1042,12 @@ impl Node {
     fn exhausted(&self) -> bool {
         let st = self.sh.st.lock().unwrap();
         st.p >= st.script.len()
+    }
+    /// How this node writes its replies (fragments, late answers, size), as the case asks.
+    fn apply(&self, pv: &Pv) {
+        self.sh.frag.store(pv.fr as u64, Ordering::SeqCst);
+        self.sh.late_ms.store(if pv.ls == 1 { pv.t_node().as_millis() as u64 + 40 } else { 0 }, Ordering::SeqCst);
+        self.sh.pad_to.store([0u64, 4095, 4096, 4097, 65535, 65537, 1 << 20][pv.rs as usize], Ordering::SeqCst);
     }
     /// A new script for the same node (its connections and log stay).
     fn reload(&self, script: Vec<Beh>) {
@@ -1061,7 +1146,44 @@ enum AnyFleet {
 
 struct Env {
     sniffer: Option<Arc<Sniffer>>,
-    rt: tokio::runtime::Runtime,
+    rt: Arc<tokio::runtime::Runtime>,
+}
+
+thread_local! {
+    /// The runtime of the case this worker thread is executing, if the case asks for its own (a
+    /// starved one: one worker thread, one blocking thread).
+    static CASE_RT: std::cell::RefCell<Option<Arc<tokio::runtime::Runtime>>> = const { std::cell::RefCell::new(None) };
+}
+
+/// While it lives, the async operations of this thread's case run on a runtime of their own.
+struct CaseRt(bool);
+
+impl CaseRt {
+    fn enter(own: bool) -> CaseRt {
+        if own {
+            let rt = tokio::runtime::Builder::new_multi_thread().worker_threads(1).max_blocking_threads(1).enable_all().build().expect("runtime");
+            CASE_RT.with(|c| *c.borrow_mut() = Some(Arc::new(rt)));
+        }
+        CaseRt(own)
+    }
+}
+
+impl Drop for CaseRt {
+    fn drop(&mut self) {
+        if self.0 {
+            if let Some(rt) = CASE_RT.with(|c| c.borrow_mut().take()) {
+                if let Ok(rt) = Arc::try_unwrap(rt) {
+                    rt.shutdown_background();
+                }
+            }
+        }
+    }
+}
+
+impl Env {
+    fn rt(&self) -> Arc<tokio::runtime::Runtime> {
+        CASE_RT.with(|c| c.borrow().clone()).unwrap_or_else(|| self.rt.clone())
+    }
 }
 
 /// What a call returned: its class (what the model predicts) and, for a reply, its content.
@@ -1126,29 +1248,29 @@ impl AnyFleet {
             (AnyFleet::B(f), "json") => f.call_json(name, method, Some(params)).map_or_else(refused, returned_json),
             (AnyFleet::B(f), "jsonnp") => f.call_json(name, method, None).map_or_else(refused, returned_json),
             (AnyFleet::B(f), _) => f.call_message(name, method).map_or_else(refused, returned_message),
-            (AnyFleet::A(f), "json") => env.rt.block_on(f.call_json(name, method, Some(params))).map_or_else(refused, returned_json),
-            (AnyFleet::A(f), "jsonnp") => env.rt.block_on(f.call_json(name, method, None)).map_or_else(refused, returned_json),
-            (AnyFleet::A(f), _) => env.rt.block_on(f.call_message(name, method)).map_or_else(refused, returned_message),
+            (AnyFleet::A(f), "json") => env.rt().block_on(f.call_json(name, method, Some(params))).map_or_else(refused, returned_json),
+            (AnyFleet::A(f), "jsonnp") => env.rt().block_on(f.call_json(name, method, None)).map_or_else(refused, returned_json),
+            (AnyFleet::A(f), _) => env.rt().block_on(f.call_message(name, method)).map_or_else(refused, returned_message),
         }
     }
     /// `connect_all`: was `name` reported connected (Some(true)), failed (Some(false)) or neither (None)
     fn connect_all(&self, env: &Env, name: &str) -> Option<bool> {
         let s = match self {
             AnyFleet::B(f) => f.connect_all(),
-            AnyFleet::A(f) => env.rt.block_on(f.connect_all()),
+            AnyFleet::A(f) => env.rt().block_on(f.connect_all()),
         };
         if s.connected.iter().any(|x| x == name) { Some(true) } else if s.failed.iter().any(|x| x == name) { Some(false) } else { None }
     }
     fn disconnect_all(&self, env: &Env) {
         match self {
             AnyFleet::B(f) => drop(f.disconnect_all()),
-            AnyFleet::A(f) => drop(env.rt.block_on(f.disconnect_all())),
+            AnyFleet::A(f) => drop(env.rt().block_on(f.disconnect_all())),
         }
     }
     fn reconnect(&self, env: &Env, name: &str) -> Option<bool> {
         let s = match self {
             AnyFleet::B(f) => f.reconnect_disconnected(),
-            AnyFleet::A(f) => env.rt.block_on(f.reconnect_disconnected()),
+            AnyFleet::A(f) => env.rt().block_on(f.reconnect_disconnected()),
         };
         if s.reconnected.iter().any(|x| x == name) { Some(true) } else if s.failed.iter().any(|x| x == name) { Some(false) } else { None }
     }
@@ -1156,7 +1278,7 @@ impl AnyFleet {
     fn health(&self, env: &Env, name: &str, method: &str) -> String {
         let mut m = match self {
             AnyFleet::B(f) => f.health_check(method),
-            AnyFleet::A(f) => env.rt.block_on(f.health_check(method)),
+            AnyFleet::A(f) => env.rt().block_on(f.health_check(method)),
         };
         match m.remove(name) {
             None => "None".into(),
@@ -1170,7 +1292,7 @@ impl AnyFleet {
     fn is_connected(&self, env: &Env, name: &str) -> bool {
         match self {
             AnyFleet::B(f) => f.is_connected(name).unwrap_or(false),
-            AnyFleet::A(f) => env.rt.block_on(f.is_connected(name)).unwrap_or(false),
+            AnyFleet::A(f) => env.rt().block_on(f.is_connected(name)).unwrap_or(false),
         }
     }
 }
@@ -1242,6 +1364,8 @@ struct CallRec {
     /// the node's timeout and the retry delay of this case
     t_node: Duration,
     delay: Duration,
+    /// the node answers its silent attempts after all, late (`Pv::ls`)
+    late: bool,
 }
 
 #[derive(Default)]
@@ -1257,7 +1381,7 @@ struct CaseOut {
 
 /// Coverage evidence: which value of each varied parameter the judged cases had.
 fn pv_counters(pv: &Pv, counters: &mut Vec<String>) {
-    let names = ["name_style", "tag_style", "method_style", "params", "node_timeout", "retry_delay", "default_timeout", "bystander", "handle", "malformed_kind", "constructor", "observers"];
+    let names = ["name_style", "tag_style", "method_style", "params", "node_timeout", "retry_delay", "default_timeout", "bystander", "handle", "malformed_kind", "constructor", "observers", "reply_fragments", "late_reply", "reply_size", "own_runtime"];
     for (n, v) in names.iter().zip(pv.fields()) {
         counters.push(format!("param.{n}.{v}"));
     }
@@ -1306,13 +1430,16 @@ fn check_call(kind: &str, max: usize, c: &CallRec, what: &str, sniffer_dependent
     // attempts accounted for: the contacts, plus one attempt on a dead cached client if the call
     // began with a cached client and did not use its connection
     let accounted = n + usize::from(c.pre_conn && !reused);
-    if c.res == "Io(ConnectionRefused)" {
+    // (in the healthy phase the node has been listening since before the call began: no connect of that
+    // call can have been refused by the kernel, seen or unseen — a refusal reported then is the fleet's own)
+    let listening_throughout = what.starts_with("healthy call");
+    if c.res == "Io(ConnectionRefused)" && !listening_throughout {
         // the fleet says its last attempt was refused: the node's log must end with that refusal
         if !matches!(c.contacts.last(), Some(x) if x.beh == Beh::Refused && x.via == Via::Connect) {
             return Verdict::Skip("refusal_unseen".into());
         }
     }
-    if sniffer_dependent && c.res.starts_with("Io(") && accounted < max {
+    if sniffer_dependent && c.res.starts_with("Io(") && accounted < max && !listening_throughout {
         // The call ended on a transport error although attempts seem to be left. Either the fleet
         // does not retry that kind (then the model, which has the extracted table, says so too — but
         // that cannot be told apart here), or it did use all its attempts and a refused connect was
@@ -1385,6 +1512,10 @@ fn check_call(kind: &str, max: usize, c: &CallRec, what: &str, sniffer_dependent
                 }
             };
             if c.res != want {
+                if c.late && last.beh == Beh::Silent && c.res == "ok" {
+                    // the late answer of the node made it before a client whose timer fired late
+                    return Verdict::Skip("late_reply".into());
+                }
                 if alts.contains(&c.res.as_str()) {
                     return Verdict::Skip(format!("class_not_engineered.{}", c.res));
                 }
@@ -1449,6 +1580,7 @@ fn one_call(env: &Env, fleet: &Handles, node: &Node, variant: &str) -> Result<Ca
         app_code: node.sh.app_code.load(Ordering::SeqCst) as u32,
         t_node: fleet.pv.t_node(),
         delay: fleet.pv.delay(),
+        late: fleet.pv.ls == 1,
     })
 }
 
@@ -1466,6 +1598,7 @@ fn build_rig(env: &Env, idx: &str, kind: &str, max: usize, seq: &[Beh], pv: &Pv)
     let node = mk(seq.to_vec())?;
     node.set_app_code_for(idx);
     node.sh.malformed_kind.store(pv.mf as u64, Ordering::SeqCst);
+    node.apply(pv);
     node.set_token(&pv.method(&node.method()));
     let mut configs = vec![NodeConfig::new(node_host(), node.port()).unwrap().with_name(pv.name("n")).unwrap().with_timeout(pv.t_node()).unwrap()];
     let by = if pv.by > 0 { Some(mk(vec![])?) } else { None };
@@ -1494,6 +1627,15 @@ fn build_rig(env: &Env, idx: &str, kind: &str, max: usize, seq: &[Beh], pv: &Pv)
 /// The bystander was healthy throughout: a call to it succeeds (the second one if only one attempt is
 /// allowed and an operation of the case left it a dead or dropped client).
 fn bystander_check(env: &Env, rig: &Rig, kind: &str, max: usize) -> Option<(String, String)> {
+    // what the observers of the case saw was admissible (the node table of these cases never changes)
+    if let Some(w) = &rig._watchers {
+        if w.inadmissible() > 0 {
+            return Some((
+                format!("fleet.{}.observer.inadmissible_state", kind_name(kind)),
+                format!("{} observation(s) by concurrent read-only observers: a node of the fleet reported as unknown, or more connected nodes than nodes", w.inadmissible()),
+            ));
+        }
+    }
     let b = rig.by.as_ref()?;
     let name = rig.fleet.pv.name("by");
     let allowed = if max >= 2 { 1 } else { 2 };
@@ -1543,7 +1685,7 @@ fn run_case(env: &Env, idx: &str, kind: &str, variant: &str, max: usize, seq: &[
                 break;
             }
             let c = one_call(env, fleet, node, variant)?;
-            let slow = c.t1.saturating_duration_since(c.t0) > SLOW_CALL;
+            let slow = c.t1.saturating_duration_since(c.t0) > SLOW_CALL + c.delay * 3;
             script_calls.push(c);
             if slow {
                 // far beyond what the script can cost: no point in paying for it 2*len+1 times
@@ -1556,7 +1698,7 @@ fn run_case(env: &Env, idx: &str, kind: &str, variant: &str, max: usize, seq: &[
         for i in 0..HEALTHY_CALLS {
             let c = one_call(env, fleet, node, variant)?;
             let ok = c.res == "ok";
-            let slow = c.t1.saturating_duration_since(c.t0) > SLOW_CALL;
+            let slow = c.t1.saturating_duration_since(c.t0) > SLOW_CALL + c.delay * 3;
             healthy_calls.push(c);
             if ok {
                 recovered = Some(i + 1);
@@ -1579,9 +1721,19 @@ fn run_case(env: &Env, idx: &str, kind: &str, variant: &str, max: usize, seq: &[
         }
     }
     // direct oracles
+    // A script call whose refusals cannot be accounted for (the fleet reports a refusal the node did not
+    // count) leaves the script phase unjudged and the case without an observation for the model — but
+    // not the healthy phase: whatever happened before, the node is listening and answering then, and that
+    // a call reaches it does not depend on the sniffer.
+    let mut script_unjudged: Option<String> = None;
     for (i, c) in script_calls.iter().enumerate() {
         match check_call(kind, max, c, &format!("script call {}", i + 1), seq.contains(&Beh::Refused)) {
             Verdict::Fine => {}
+            Verdict::Skip(r) if r == "refusal_unseen" => {
+                out.fails.clear();
+                script_unjudged = Some(r);
+                break;
+            }
             Verdict::Skip(r) => {
                 out.skip = Some(r);
                 return out;
@@ -1619,6 +1771,14 @@ fn run_case(env: &Env, idx: &str, kind: &str, variant: &str, max: usize, seq: &[
     }
     if let Some(f) = bystander_check(env, &rig, kind, max) {
         out.fails.push(f);
+    }
+    if let Some(r) = script_unjudged {
+        if out.fails.is_empty() {
+            out.skip = Some(r);
+            return out;
+        }
+        out.obs = Some(format!("{idx} script-phase-unjudged"));
+        return out;
     }
     if cut && out.fails.is_empty() {
         // the script phase was cut short and nothing is wrong by the oracles: the observation is
@@ -1739,6 +1899,7 @@ fn run_life(env: &Env, idx: &str, kind: &str, max: usize, seq: &[Beh], ops: &[St
                         app_code: 0,
                         t_node: HEALTH_TIMEOUT,
                         delay: Duration::ZERO,
+                        late: false,
                     };
                     // a health check is one attempt: the clauses of a call with max_attempts = 1 …
                     verdicts.push(check_call(kind, 1, &c, &what, sd));
@@ -1935,33 +2096,33 @@ impl AnyFleet {
         match (self, reducer) {
             (AnyFleet::B(f), None) => f.broadcast_json(method, params, req).into_iter().map(|(k, r)| (k, returned_json(r))).collect(),
             (AnyFleet::B(f), Some(red)) => f.map_reduce_json(method, params, req, |v| reduce(red, v)),
-            (AnyFleet::A(f), None) => env.rt.block_on(f.broadcast_json(method, params, req)).into_iter().map(|(k, r)| (k, returned_json(r))).collect(),
-            (AnyFleet::A(f), Some(red)) => env.rt.block_on(f.map_reduce_json(method, params, req, |v| reduce(red, v))),
+            (AnyFleet::A(f), None) => env.rt().block_on(f.broadcast_json(method, params, req)).into_iter().map(|(k, r)| (k, returned_json(r))).collect(),
+            (AnyFleet::A(f), Some(red)) => env.rt().block_on(f.map_reduce_json(method, params, req, |v| reduce(red, v))),
         }
     }
     fn filter_nodes(&self, env: &Env, req: &[String]) -> Vec<String> {
         match self {
             AnyFleet::B(f) => f.filter_nodes(req).into_iter().map(|n| n.name).collect(),
-            AnyFleet::A(f) => env.rt.block_on(f.filter_nodes(req)).into_iter().map(|n| n.name).collect(),
+            AnyFleet::A(f) => env.rt().block_on(f.filter_nodes(req)).into_iter().map(|n| n.name).collect(),
         }
     }
     fn remove_node(&self, env: &Env, name: &str) -> bool {
         match self {
             AnyFleet::B(f) => f.remove_node(name),
-            AnyFleet::A(f) => env.rt.block_on(f.remove_node(name)),
+            AnyFleet::A(f) => env.rt().block_on(f.remove_node(name)),
         }
     }
     fn add_node(&self, env: &Env, cfg: NodeConfig) -> bool {
         match self {
             AnyFleet::B(f) => f.add_node(cfg).is_ok(),
-            AnyFleet::A(f) => env.rt.block_on(f.add_node(cfg)).is_ok(),
+            AnyFleet::A(f) => env.rt().block_on(f.add_node(cfg)).is_ok(),
         }
     }
     /// `call_json` on a name: `None` if the fleet does not know the node
     fn try_call(&self, env: &Env, name: &str, method: &str) -> Option<Returned> {
         match self {
             AnyFleet::B(f) => f.call_json(name, method, None).ok().map(returned_json),
-            AnyFleet::A(f) => env.rt.block_on(f.call_json(name, method, None)).ok().map(returned_json),
+            AnyFleet::A(f) => env.rt().block_on(f.call_json(name, method, None)).ok().map(returned_json),
         }
     }
 }
@@ -1985,6 +2146,7 @@ fn run_bc(env: &Env, idx: &str, kind: &str, max: usize, nodes: &[BcNode], req: &
         match Node::new(script, env.sniffer.clone()) {
             Ok(x) => {
                 x.set_app_code_for(&format!("{idx}{}", n.name));
+                x.apply(pv);
                 live.push(x)
             }
             Err(e) => {
@@ -2244,7 +2406,11 @@ fn run_bc(env: &Env, idx: &str, kind: &str, max: usize, nodes: &[BcNode], req: &
 struct Observers {
     stop: Arc<std::sync::atomic::AtomicBool>,
     sweeps: Arc<AtomicU64>,
+    /// observations that are not an admissible state: `is_connected` of a node of the fleet answered
+    /// "no such node", or more nodes were listed as connected than the fleet has
+    inadmissible: Arc<AtomicU64>,
     threads: Vec<std::thread::JoinHandle<()>>,
+    tasks: Vec<tokio::task::JoinHandle<()>>,
 }
 
 impl Observers {
@@ -2252,9 +2418,38 @@ impl Observers {
     fn start(env: &Env, fleet: &AnyFleet, names: Vec<String>, count: usize, pause: Option<Duration>) -> Observers {
         let stop = Arc::new(std::sync::atomic::AtomicBool::new(false));
         let sweeps = Arc::new(AtomicU64::new(0));
+        let inadmissible = Arc::new(AtomicU64::new(0));
         let mut threads = vec![];
+        let mut tasks = vec![];
+        let own_runtime = CASE_RT.with(|c| c.borrow().is_some());
         for t in 0..count {
-            let (fleet, names, stop, sweeps, rt) = (fleet.clone(), names.clone(), stop.clone(), sweeps.clone(), env.rt.handle().clone());
+            // every second observer of an async fleet is a task on the fleet's runtime, not a thread
+            // (not on a starved runtime of one worker: a spinning task there is the only thing that runs)
+            if let (AnyFleet::A(f), true, false) = (fleet, t % 2 == 1, own_runtime) {
+                let (f, names, stop, sweeps, inadmissible) = (f.clone(), names.clone(), stop.clone(), sweeps.clone(), inadmissible.clone());
+                let batch = if pause.is_none() { 64 } else { 1 };
+                tasks.push(env.rt().spawn(async move {
+                    while !stop.load(Ordering::Relaxed) {
+                        for _ in 0..batch {
+                            for n in &names {
+                                if f.is_connected(n).await.is_err() {
+                                    inadmissible.fetch_add(1, Ordering::Relaxed);
+                                }
+                            }
+                        }
+                        if f.connected_nodes().await.len() > f.len().await {
+                            inadmissible.fetch_add(1, Ordering::Relaxed);
+                        }
+                        sweeps.fetch_add(batch, Ordering::Relaxed);
+                        match pause {
+                            Some(p) => tokio::time::sleep(p).await,
+                            None => tokio::task::yield_now().await,
+                        }
+                    }
+                }));
+                continue;
+            }
+            let (fleet, names, stop, sweeps, rt, inadmissible) = (fleet.clone(), names.clone(), stop.clone(), sweeps.clone(), env.rt().handle().clone(), inadmissible.clone());
             let spawned = std::thread::Builder::new().stack_size(256 << 10).spawn(move || {
                 let none: [&str; 0] = [];
                 let mut k = t;
@@ -2268,7 +2463,9 @@ impl Observers {
                         AnyFleet::B(f) => {
                             for _ in 0..batch {
                                 for n in &names {
-                                    let _ = f.is_connected(n);
+                                    if f.is_connected(n).is_err() {
+                                        inadmissible.fetch_add(1, Ordering::Relaxed);
+                                    }
                                 }
                             }
                             match k % 8 {
@@ -2284,7 +2481,9 @@ impl Observers {
                         AnyFleet::A(f) => rt.block_on(async {
                             for _ in 0..batch {
                                 for n in &names {
-                                    let _ = f.is_connected(n).await;
+                                    if f.is_connected(n).await.is_err() {
+                                        inadmissible.fetch_add(1, Ordering::Relaxed);
+                                    }
                                 }
                             }
                             match k % 8 {
@@ -2316,10 +2515,13 @@ impl Observers {
                 threads.push(h);
             }
         }
-        Observers { stop, sweeps, threads }
+        Observers { stop, sweeps, inadmissible, threads, tasks }
     }
     fn sweeps(&self) -> u64 {
         self.sweeps.load(Ordering::Relaxed)
+    }
+    fn inadmissible(&self) -> u64 {
+        self.inadmissible.load(Ordering::Relaxed)
     }
 }
 
@@ -2328,6 +2530,9 @@ impl Drop for Observers {
         self.stop.store(true, Ordering::SeqCst);
         for h in self.threads.drain(..) {
             let _ = h.join();
+        }
+        for t in self.tasks.drain(..) {
+            t.abort();
         }
     }
 }
@@ -2433,6 +2638,10 @@ fn run_obs(env: &Env, idx: &str, kind: &str, variant: &str, max: usize, observer
         }
     }
     let sweeps = watchers.sweeps();
+    if watchers.inadmissible() > 0 && out.fails.is_empty() {
+        out.fails.push((format!("fleet.{k}.observer.inadmissible_state"), format!("{} inadmissible observation(s) in {rounds} rounds", watchers.inadmissible())));
+        deviation = Some((0, String::new()));
+    }
     drop(watchers);
     out.obs = Some(match deviation {
         None => format!("{idx} all {}", first.unwrap_or_default()),
@@ -2444,6 +2653,110 @@ fn run_obs(env: &Env, idx: &str, kind: &str, variant: &str, max: usize, observer
     out.nontrivial = true;
     out.counters.push(format!("obs.{k}.max{max}.observers{observers}"));
     out.counters.push(format!("obs.looks_per_round.{}k", if rounds == 0 { 0 } else { (sweeps / rounds as u64 / 1000).min(100) / 10 * 10 }));
+    pv_counters(pv, &mut out.counters);
+    out
+}
+
+/// `cx`: an async fleet operation is cancelled (its future dropped) at a drawn instant, in rounds on one
+/// fleet; afterwards the node is healthy and a call must reconnect and succeed — with the reply of that
+/// call, not one addressed to the cancelled request. What the cancelled operation did to the node is
+/// not predicted (it depends on the instant); the rounds are "exercised only" for the model.
+fn run_cx(env: &Env, idx: &str, max: usize, rounds: usize, pv: &Pv) -> CaseOut {
+    let mut out = CaseOut::default();
+    let kind = "a";
+    let k = kind_name(kind);
+    let rig = match build_rig(env, idx, kind, max, &[], pv) {
+        Ok(r) => r,
+        Err(e) => {
+            out.skip = Some(e);
+            return out;
+        }
+    };
+    let (node, fleet) = (&rig.node, &rig.fleet);
+    let AnyFleet::A(f) = &fleet.orig else { unreachable!() };
+    let name = pv.name("n");
+    let params = pv.params();
+    let none: [&str; 0] = [];
+    let mut rng = Rng::new(fnv(idx.as_bytes()) | 1);
+    let allowed = if max >= 2 { 1 } else { 2 };
+    for round in 0..rounds {
+        let what = round % 6;
+        // calls are cancelled against a node that would stay silent (the call is mid-attempt whenever the
+        // cut falls) or that answers (the cut races with the reply); operations that spawn their work
+        // (connect_all, broadcast_json) only against a node that answers: what they spawned runs on
+        let silent = what < 2;
+        node.reload(if silent { vec![Beh::Silent] } else { vec![] });
+        let cut = Duration::from_micros(rng.below(if silent { 20_000 } else { 1_500 }));
+        let method = node.method();
+        let done: bool = env.rt().block_on(async {
+            match what {
+                0 | 2 => tokio::time::timeout(cut, f.call_json(&name, &method, Some(&params))).await.is_ok(),
+                1 | 3 => tokio::time::timeout(cut, f.call_message(&name, &method)).await.is_ok(),
+                4 => tokio::time::timeout(cut, f.connect_all()).await.is_ok(),
+                _ => tokio::time::timeout(cut, f.broadcast_json(&method, Some(&params), &none)).await.is_ok(),
+            }
+        });
+        out.counters.push(format!("cx.op{what}.{}", if done { "completed" } else { "cancelled" }));
+        node.reload(vec![]);
+        if what >= 4 {
+            std::thread::sleep(Duration::from_millis(20)); // what the operation spawned finishes against a node that answers
+        }
+        if let Err(e) = node.settle() {
+            out.skip = Some(e);
+            return out;
+        }
+        let mut calls = vec![];
+        let mut recovered = false;
+        for _ in 0..allowed {
+            match one_call(env, fleet, node, ["json", "msg", "jsonnp"][round % 3]) {
+                Ok(c) => {
+                    let ok = c.res == "ok";
+                    calls.push(c);
+                    if ok {
+                        recovered = true;
+                        break;
+                    }
+                }
+                Err(e) => {
+                    out.skip = Some(e);
+                    return out;
+                }
+            }
+        }
+        let ctx = format!(
+            "round {round} of {rounds}: operation {what} ({}) dropped after {}µs ({}); then the node answers: calls {} (contacts:result:is_connected), max_attempts {max}",
+            ["call_json/silent node", "call_message/silent node", "call_json", "call_message", "connect_all", "broadcast_json"][what],
+            cut.as_micros(),
+            if done { "it had completed" } else { "cancelled" },
+            calls.iter().map(show_call).collect::<Vec<_>>().join(" ")
+        );
+        for (i, c) in calls.iter().enumerate() {
+            match check_call(kind, max, c, &format!("round {round}, call {}", i + 1), false) {
+                Verdict::Fine => {}
+                Verdict::Skip(r) => {
+                    out.skip = Some(r);
+                    return out;
+                }
+                Verdict::Fail(sig, d) => {
+                    out.fails.push((sig, format!("{d}; {ctx}")));
+                    break;
+                }
+            }
+        }
+        if out.fails.is_empty() && !recovered {
+            if calls.iter().any(|c| c.res == "Io(TimedOut)" && c.contacts.iter().any(|x| x.beh == Beh::Success)) {
+                out.skip = Some("late_reply".into());
+                return out;
+            }
+            out.fails.push((format!("fleet.{k}.recover.after_cancel"), ctx));
+        }
+        if !out.fails.is_empty() {
+            break;
+        }
+    }
+    out.obs = Some(if out.fails.is_empty() { format!("{idx} rounds ok") } else { format!("{idx} deviates") });
+    out.nontrivial = true;
+    out.counters.push(format!("cx.max{max}"));
     pv_counters(pv, &mut out.counters);
     out
 }
@@ -2515,6 +2828,7 @@ fn exec(env: &Env, line: &str) -> CaseOut {
     };
     w.retain(|x| !x.starts_with("p="));
     let pv = &pv;
+    let _own_runtime = CaseRt::enter(pv.rt == 1);
     let bad = || CaseOut { obs: Some(format!("{} bad-op", w.get(1).copied().unwrap_or("?"))), ..Default::default() };
     match w.as_slice() {
         ["case", idx, kind, variant, max, seq, ..] if w.len() <= 7 && ["b", "a"].contains(kind) && ["json", "jsonnp", "msg"].contains(variant) => {
@@ -2528,7 +2842,14 @@ fn exec(env: &Env, line: &str) -> CaseOut {
         [op @ ("bc" | "mr"), idx, kind, max, nodes, req] if ["b", "a"].contains(kind) => {
             let (Ok(max), Some(nodes)) = (max.parse::<usize>(), parse_bc_nodes(nodes)) else { return bad() };
             let req: Vec<String> = if *req == "-" { vec![] } else { req.split(',').map(|x| x.to_string()).collect() };
-            run_bc(env, idx, kind, max, &nodes, &req, *op == "mr", pv)
+            let mut r = run_bc(env, idx, kind, max, &nodes, &req, *op == "mr", pv);
+            if !r.fails.is_empty() {
+                // which nodes a defective fan-out leaves out can depend on the iteration order of a hash
+                // map: a failing broadcast says only that it deviates (the detail has the rest), so that
+                // it reproduces
+                r.obs = Some(format!("{idx} deviates"));
+            }
+            r
         }
         ["obs", idx, kind, variant, max, observers, rounds] if ["b", "a"].contains(kind) && ["json", "jsonnp", "msg"].contains(variant) => {
             let (Ok(max), Ok(o), Ok(r)) = (max.parse::<usize>(), observers.parse::<usize>(), rounds.parse::<usize>()) else { return bad() };
@@ -2536,6 +2857,13 @@ fn exec(env: &Env, line: &str) -> CaseOut {
                 return bad();
             }
             run_obs(env, idx, kind, variant, max, o, r, pv)
+        }
+        ["cx", idx, "a", max, rounds] => {
+            let (Ok(max), Ok(r)) = (max.parse::<usize>(), rounds.parse::<usize>()) else { return bad() };
+            if max == 0 || max > 1000 || r == 0 || r > 100_000 {
+                return bad();
+            }
+            run_cx(env, idx, max, r, pv)
         }
         ["opts", idx, kind, what] if ["b", "a"].contains(kind) && ["zero", "dup", "dupadd"].contains(what) => run_opts(env, idx, kind, what),
         ["life", idx, kind, max, seq, ops, ..] if w.len() <= 7 && ["b", "a"].contains(kind) => {
@@ -2633,6 +2961,96 @@ fn gen_cases(rng: &mut Rng, thorough: bool) -> Vec<String> {
             }
         }
     }
+    // (g) the same outcome N times in a row, then a healthy node: the N-th is treated like the first
+    {
+        let ns: Vec<usize> = if thorough { vec![2, 7, 8, 9, 16, 17, 64, 65, 256] } else { vec![2, 7, 8, 9, 16, 17] };
+        let mut g = 0usize;
+        for b in ALL_BEH {
+            for nrep in &ns {
+                if b == Beh::Silent && *nrep > if thorough { 17 } else { 9 } {
+                    continue;
+                }
+                for max in [1usize, 3] {
+                    g += 1;
+                    let kind = if g % 2 == 0 { "b" } else { "a" };
+                    let seq = vec![b; *nrep];
+                    let pw = if g % 3 == 0 { String::new() } else { format!(" {}", Pv::random_for(rng, &seq).show()) };
+                    ops.push(format!("case g{g} {kind} {} {max} {}{pw}", ["json", "jsonnp", "msg"][g % 3], show_seq(&seq)));
+                }
+            }
+        }
+        if thorough {
+            for b in [Beh::Atc, Beh::Success, Beh::AppErr, Beh::Idle] {
+                for (kind, max) in [("b", 1usize), ("a", 8)] {
+                    g += 1;
+                    ops.push(format!("case g{g} {kind} json {max} {}", show_seq(&vec![b; 1000])));
+                }
+            }
+        }
+        // the same management operation N times in a row, against N times the same outcome
+        for (i, op) in ["conn", "reconn", "health", "call", "disc", "disc,reconn", "health,call"].iter().enumerate() {
+            for nrep in [8usize, 17] {
+                g += 1;
+                let b = [Beh::Refused, Beh::Atc, Beh::Idle, Beh::Malformed, Beh::AppErr][(i + nrep) % 5];
+                let kind = if g % 2 == 0 { "b" } else { "a" };
+                let seq = vec![b; nrep];
+                ops.push(format!("life lg{g} {kind} {} {} {} {}", 1 + g % 3, show_seq(&seq), vec![*op; nrep].join(","), Pv::random_for(rng, &seq).show()));
+            }
+        }
+        // fan-out over many nodes (16, 17, 33; thorough 64, 65, 129): one result per addressed node
+        let counts: Vec<usize> = if thorough { vec![16, 17, 33, 64, 65, 129] } else { vec![16, 17, 33] };
+        for cnt in counts {
+            for (j, kind) in ["b", "a"].iter().enumerate() {
+                g += 1;
+                let nodes: Vec<String> = (0..cnt)
+                    .map(|i| {
+                        let tags = match i % 3 { 0 => "a", 1 => "a+b", _ => "b" };
+                        let bs = if i == 5 { "refused" } else if i == 7 { "silent" } else if i == 9 { "apperr" } else { "-" };
+                        format!("n{i:03}={tags}={bs}")
+                    })
+                    .collect();
+                let mut pv = Pv::random(rng);
+                pv.rs = pv.rs.min(3); // not the large replies times a hundred nodes
+                pv.fr = 3; // every reply takes a few ms: all the calls of the fan-out are in flight at the same time
+                ops.push(format!("{} bg{g} {kind} 1 {} {} {}", if j == 0 { "bc" } else { "mr" }, nodes.join(";"), ["a", "b,a", "-"][g % 3], pv.show()));
+            }
+        }
+    }
+    // (k) pairs of knobs at their extremes: an orthogonal array of strength 2 over seven two-valued knobs
+    // (max_attempts 1|64, retry delay 0|40 ms, node timeout 60|120 ms, default timeout 1 ms|20 s, handle
+    // fleet|fresh clone, shared|own starved runtime, replies whole|in stalled pieces): every pair of
+    // values of every two knobs occurs together
+    {
+        let scripts: [&[Beh]; 4] = [&[Beh::Silent, Beh::Atc, Beh::Success], &[Beh::Idle, Beh::Atc], &[Beh::Malformed, Beh::AppErr, Beh::Idle], &[Beh::Atc, Beh::Atc, Beh::Atc]];
+        let mut kk = 0usize;
+        for row in 0..8u8 {
+            let (b0, b1, b2) = (row & 1, row >> 1 & 1, row >> 2 & 1);
+            let col = [b0, b1, b2, b0 ^ b1, b0 ^ b2, b1 ^ b2, b0 ^ b1 ^ b2];
+            for sc in scripts {
+                for kind in ["b", "a"] {
+                    kk += 1;
+                    let pv = Pv {
+                        dl: [1, 3][col[1] as usize],
+                        to: [1, 2][col[2] as usize],
+                        dt: [1, 0][col[3] as usize],
+                        cl: [0, 2][col[4] as usize],
+                        rt: col[5],
+                        fr: [0, 3][col[6] as usize],
+                        ..Pv::default()
+                    };
+                    let max = [1usize, 64][col[0] as usize];
+                    ops.push(format!("case k{kk} {kind} {} {max} {} {}", ["json", "jsonnp", "msg"][kk % 3], show_seq(sc), pv.show()));
+                }
+            }
+        }
+    }
+    // (m) an async operation dropped mid-way, in rounds; then the node answers
+    for (i, max) in [1usize, 2, 3].iter().enumerate() {
+        let mut pv = Pv::random(rng);
+        (pv.ob, pv.op, pv.ls, pv.fr) = (0, 0, 0, 0);
+        pv.dl = [0, 2, 1][i];
+        ops.push(format!("cx x{i} a {max} {} {}", if thorough { 240 } else { 60 }, pv.show()));
+    }
     // read-only observers spinning while a node drops a request and is healthy again, in rounds on one fleet
     {
         let rounds = if thorough { 800 } else { 400 };
@@ -2645,6 +3063,7 @@ fn gen_cases(rng: &mut Rng, thorough: bool) -> Vec<String> {
                     pv.ob = 0;
                     pv.op = 0;
                     pv.nm = 0; // a short name: the observers' time goes into the slot lock, not into hashing the key
+                    (pv.fr, pv.ls, pv.rs, pv.rt) = (0, 0, 0, 0); // hundreds of rounds: nothing that slows a round
                     pv.dl = [0, 2][o % 2]; // 15 ms or 1 ms between attempts
                     ops.push(format!("obs w{o} {kind} {} {max} {observers} {rounds} {}", ["json", "jsonnp", "msg"][o % 3], pv.show()));
                 }
@@ -2758,7 +3177,7 @@ fn main() {
     let mut rng = Rng::new(args.seed);
     let env = Arc::new(Env {
         sniffer: Sniffer::start(),
-        rt: tokio::runtime::Builder::new_multi_thread().worker_threads(4).enable_all().build().unwrap(),
+        rt: Arc::new(tokio::runtime::Builder::new_multi_thread().worker_threads(4).enable_all().build().unwrap()),
     });
     out.extra.insert("sniffer".into(), serde_json::json!(env.sniffer.is_some()));
     out.extra.insert("node_timeout_ms".into(), serde_json::json!(T_NODE.as_millis() as u64));
@@ -2814,6 +3233,11 @@ fn main() {
                 let sigs = |x: &CaseOut| { let mut v: Vec<String> = x.fails.iter().map(|f| f.0.clone()).collect(); v.sort(); v.dedup(); v };
                 let first = sigs(&r);
                 for _ in 0..2 {
+                    if CONFIRMED.load(Ordering::SeqCst) >= ENOUGH_CONFIRMED {
+                        // the verdict is settled by other cases: this one is not paid for twice more
+                        r = CaseOut { skip: Some("not_run_after_failures".into()), ..Default::default() };
+                        break;
+                    }
                     let again = run(&ops[i]);
                     if again.skip.is_some() || sigs(&again) != first || again.obs != r.obs {
                         if std::env::var("FLEET_TEST_VERBOSE").is_ok() {
